@@ -12,7 +12,8 @@ def rest(P, rep):
     pu = P.unit(PP)
     from .lib_c18c import r188
     from .lib_c18d import r189
-    return (('R18.8', r188, (P, rep)), ('R18.9', r189, (P, rep)), ('R18.4', r184, (P, rep)), ('R18.5', r185, (P, rep)),
+    from .lib_c18f import r1810, r1811
+    return (('R18.10', r1810, (P, rep)), ('R18.11', r1811, (P, rep)), ('R18.8', r188, (P, rep)), ('R18.9', r189, (P, rep)), ('R18.4', r184, (P, rep)), ('R18.5', r185, (P, rep)),
             ('R18.6', r186_handlers, (P, pu, rep)), ('R18.6', r186_line_marker, (P, pu, rep)), ('R18.6', r186_origin, (P, pu, rep)),
             ('R18.7', r187, (P, rep)))
 
@@ -184,7 +185,8 @@ def r186_line_marker(P, u, rep):
         facts = {'path': ctx.trail, 'stored': repr(v)}
         okf = isinstance(o, Obj) and o.label == 'start.file'
         rep.ob('R18.6', base + ':delta-of-the-directives-file', okf, '#line stores its delta into %r, not into the file of the directive' % (o,), where=W, facts=facts)
-        want = lsub(lsub(Sym('arg.val'), Sym('start.line_no')), 1)
+        nsym = _line_operand(P, u, rep, ctx, v, base, W, facts)
+        want = lsub(lsub(nsym, Sym('start.line_no')), 1)
         d = lsub(v, want)
         if isinstance(d, int) and d == 0:
             rep.ob('R18.6', base + ':next-line-is-N', True, '', where=W)
@@ -200,6 +202,76 @@ def r186_line_marker(P, u, rep):
             rep.ob('R18.6', base + ':display-name-from-the-string', okd, '#line "name" does not store the string operand as display name of the directive\'s file (%r)' % (dn[-1][4],), where=W, facts=facts)
     if n < 2:
         rep.undecided('R18.6', base + ':liveness', 'fewer than 2 returning paths store a delta (%d)' % n, where=W)
+
+
+STRTO = ('strtol', 'strtoul', 'strtoll', 'strtoull', 'strtoimax', 'strtoumax')
+ATOI = ('atoi', 'atol', 'atoll')
+
+
+def _radix_by_prefix(P):
+    """does the conversion that fills Token.val from a pp-number choose its radix from the spelling?  True / False / None (cannot tell):
+    among the functions of tokenize.c reachable from convert_pp_tokens, a strto* call whose base is not the literal 10"""
+    tu = P.unit(T)
+    if 'convert_pp_tokens' not in tu.functions:
+        return None
+    from .lib_c18e import callgraph, closure
+    fns = closure(callgraph(tu), ['convert_pp_tokens'])
+    seen = None
+    for f in fns:
+        fd = tu.functions.get(f)
+        if fd is None:
+            continue
+        for c in fd.walk():
+            if c.kind == 'CallExpr' and c.callee() in STRTO and len(c.args()) == 3:
+                try:
+                    b = c.args()[2].strip_all().int_value()
+                except Exception:
+                    b = None
+                if b != 10:
+                    return True
+                seen = False
+    return seen
+
+
+def _line_operand(P, u, rep, ctx, v, base, W, facts):
+    """the operand N inside the stored delta, and how it was read from the spelling: `#line` takes a digit sequence that is read as a
+    DECIMAL number whatever its leading zeros (C11 6.10.4p3), not an integer constant whose prefix selects the radix"""
+    l = lin(v)
+    others = [(c, leaf) for (c, leaf) in (l.terms.values() if l is not None else []) if getattr(leaf, 'name', None) != 'start.line_no']
+    if len(others) != 1 or others[0][0] != 1:
+        return Sym('arg.val')
+    leaf = others[0][1]
+    name = getattr(leaf, 'name', '') or ''
+    key = base + ':operand-radix'
+    if isinstance(leaf, Sym) and name.endswith('.val'):
+        r = _radix_by_prefix(P)
+        if r is None:
+            rep.undecided('R18.6', key, 'the line number is taken from Token.val; cannot find how a pp-number is converted into it', where=W)
+        else:
+            rep.ob('R18.6', key + ('/integer-constant' if r else '/decimal'), not r,
+                   'the operand of #line is converted like an integer constant (Token.val as filled by convert_pp_tokens: a leading 0 selects octal, 0x hexadecimal, 0b binary, suffixes are accepted): '
+                   '`#line 010` selects line 8 where C11 6.10.4p3 (a digit sequence read as a decimal number) and gcc select line 10', where=W, facts=facts)
+        return leaf
+    calls = [e for e in ctx.events if e[0] == 'call' and e[1] in STRTO + ATOI and (e[4] is leaf or vkey(e[4]) == vkey(leaf))]
+    if calls:
+        e = calls[0]
+        a = e[2]
+        src = getattr(a[0], 'name', '') if a else ''
+        if e[1] in ATOI:
+            b = 10
+        else:
+            b = a[2] if len(a) > 2 and isinstance(a[2], int) else None
+        if not src.endswith('.loc') or b is None:
+            rep.undecided('R18.6', key, 'the line number is the result of %s(%s, ..): cannot tell what is converted in which base' % (e[1], src or '?'), where=W)
+        elif b == 10:
+            rep.ob('R18.6', key + '/decimal', True, '', where=W)
+        else:
+            rep.ob('R18.6', key + ('/integer-constant' if b == 0 else '/base-%d' % b), False,
+                   'the operand of #line is read with %s(.., %d): %s, C11 6.10.4p3 makes it a digit sequence read as a decimal number' % (
+                       e[1], b, 'a prefix selects the radix (`#line 010` is line 8)' if b == 0 else 'the digits are not read as decimal'), where=W, facts=facts)
+        return leaf
+    rep.undecided('R18.6', key, 'cannot tell how the line number %r is read from the operand of #line' % (leaf,), where=W)
+    return leaf
 
 
 def r186_origin(P, u, rep):
@@ -474,10 +546,43 @@ def r185(P, rep):
                     nm, no = f.fields.get('name'), f.fields.get('file_no')
                     okf = any(getattr(nm, 'name', None) == t + '.file.name' and getattr(no, 'name', None) == t + '.file.file_no' for t in tp)
                     why = 'a new File(name=%r, file_no=%r)' % (nm, no)
+            _scratch_rescans_spellings(it, rep, ctx, base, fname, W, facts)
             rep.ob('R18.5', base + ':file-identity-inherited', okf,
                    'the token returned by %s belongs to %s, not to a file with the name and number of its template\'s file: diagnostics name another file and .loc refers to another (or no) .file entry' % (fname, why), where=W, facts=facts)
         if n == 0:
             rep.undecided('R18.5', base + ':no-path', 'no path of %s returns a synthesised token' % fname, where=W)
+
+
+def _scratch_rescans_spellings(it, rep, ctx, base, fname, W, facts):
+    """a scratch buffer that is tokenised under the NAME of the template's file: the scanner's own diagnostics (error_at) count lines inside
+    the scratch buffer. Harmless while the buffer always scans (a number, a quoted string, one spelling); a buffer put together from the
+    spellings of two or more tokens may not (`/` ## `*` opens a comment, `"` pieces an unclosed string)"""
+    tz = [e for e in ctx.events if e[0] == 'call' and e[1] == 'tokenize']
+    if not tz:
+        return
+    f = tz[-1][2][0] if tz[-1][2] else None
+    f = it.settle(f) if isinstance(f, View) else f
+    if not isinstance(f, Obj):
+        return
+    buf = f.fields.get('contents')
+    if not (isinstance(buf, Term) and buf.op == 'format'):
+        return
+    spell = [a for a in buf.args[1:] if isinstance(a, Sym) and a.name.endswith('.loc')]
+    if len(spell) < 2:
+        return
+    nm = f.fields.get('name')
+    borrowed = isinstance(nm, Sym) and nm.name.endswith('.file.name')
+    if not borrowed:
+        return
+    extra = sorted(k for k in f.fields if k not in ('name', 'display_name', 'file_no', 'contents'))
+    key = base + ':scratch-of-several-spellings-scanned-under-the-template-name'
+    if extra:
+        rep.undecided('R18.5', key, 'the scratch File of %s carries %s; whether the scanner\'s diagnostics use it to name the template\'s line is not decided' % (fname, ', '.join(extra)), where=W)
+        return
+    rep.ob('R18.5', key, False,
+           '%s() tokenises a buffer made of the spellings of %d tokens (%s) as a File that has the NAME of the template\'s file but its own contents: when the buffer does not scan '
+           '(`/` ## `*` opens a comment that is never closed) the scanner\'s diagnostic (error_at) counts lines inside the scratch buffer and reports line 1 of the template\'s file, '
+           'whatever line the tokens are on' % (fname, len(spell), ', '.join(a.name for a in spell)), where=W, facts=facts)
 
 
 def r187(P, rep):
